@@ -6,6 +6,7 @@ import (
 	"os"
 
 	"verifharness/ec"
+	"verifharness/ka"
 	"verifharness/vk"
 )
 
@@ -13,6 +14,8 @@ var checks = map[string]func(*vk.Run){
 	"C14": func(r *vk.Run) { ec.Run(r, "C14") },
 	"C15": func(r *vk.Run) { ec.Run(r, "C15") },
 	"C13": ec.RunC13,
+	"C10": ka.RunC10,
+	"C11": ka.RunC11,
 }
 
 func main() {
